@@ -45,7 +45,7 @@ func (c01) ID() string { return "C01" }
 
 func (c01) Plan(tier string) core.Plan {
 	if tier == "thorough" {
-		return core.Plan{Systematic: 1, Seeded: 400000} // one signature behind 2^24 unusable candidates
+		return core.Plan{Systematic: 2, Seeded: 400000} // one signature behind 2^24 unusable candidates, one behind 2^26+5
 	}
 	return core.Plan{Seeded: 16000}
 }
@@ -53,7 +53,7 @@ func (c01) Plan(tier string) core.Plan {
 func (c01) Meta() core.Meta {
 	return core.Meta{
 		Level: "exploration",
-		Rule: "thorough tier only: one signature whose nonce stream begins with 2^24 unusable candidates; seeded two-party runs: one key (valid, incl. short encodings and leading-zero keys), 1-6 signatures per run through Sign/SignZa/SignHashed with nonces from the simulated device (occasional rejected candidates, short reads), digests solved so that r, s or t=(r+s) mod n has 1-3 leading zero bytes, each signature delivered unmodified to the matching Verify*. " +
+		Rule: "thorough tier only: two signatures whose nonce streams begin with 2^24 and 2^26+5 unusable candidates; identities of 0..200 bytes, 1 in 12 of 255..8192 bytes (the longest the signer takes); seeded two-party runs: one key (valid, incl. short encodings and leading-zero keys), 1-6 signatures per run through Sign/SignZa/SignHashed with nonces from the simulated device (occasional rejected candidates, short reads), digests solved so that r, s or t=(r+s) mod n has 1-3 leading zero bytes, each signature delivered unmodified to the matching Verify*. " +
 			"non-trivial = a short r/s/t, a short key encoding, a rejected candidate or a delivery fault occurred; distinct = distinct (entry points, key class, per-signature (r,s,t) leading-zero classes, faults fired)",
 		Components: map[string]string{"sm2.Sign/SignZa/SignHashed": "real", "sm2.Verify/VerifyZa/VerifyHashed": "real", "randomness source": "stub (simulated device)", "wire": "stub (fault-free in this property)",
 			"public key": "derived by sm2ref ([d]G); sm2ref also solves digests for target r/s/t"},
@@ -65,10 +65,10 @@ func (c01) Meta() core.Meta {
 }
 
 func (c01) Generate(idx int, r *core.Rand, tier string) core.Script {
-	if tier == "thorough" && idx == 0 {
-		cr := core.NewRand(core.Mix(0xC01, "flood", 0))
+	if tier == "thorough" && idx < 2 {
+		cr := core.NewRand(core.Mix(0xC01, "flood", uint64(idx)))
 		s := &c01Script{Priv: hx(genPriv(cr)), Sigs: []c01Sig{{Op: "SignHashed", E: hx(cr.Bytes(32))}}}
-		s.Content = rng.Content{Flood: 1 << 24, Candidates: []string{hx(ref.Pad32(randScalar(cr)))}, TailSeed: cr.Uint64()}
+		s.Content = rng.Content{Flood: []int{1 << 24, 1<<26 + 5}[idx], Candidates: []string{hx(ref.Pad32(randScalar(cr)))}, TailSeed: cr.Uint64()}
 		return s
 	}
 	w := r.Split("workload")
@@ -181,7 +181,11 @@ func (c01) Generate(idx int, r *core.Rand, tier string) core.Script {
 			sig.Za = hx(w.Bytes(32))
 			sig.Msg = hx(w.Bytes(w.Len(300)))
 		case "Sign":
-			sig.ID = hx(w.Bytes(w.PickInt(0, 1, 16, 16, 17, 31, 64, 200)))
+			idLen := w.PickInt(0, 1, 16, 16, 17, 31, 64, 200)
+			if w.Chance(1, 12) { // around the one-byte length boundary and up to the longest identity the signer takes
+				idLen = w.PickInt(255, 256, 4096, 8190, 8191, 8192)
+			}
+			sig.ID = hx(w.Bytes(idLen))
 			sig.Msg = hx(w.Bytes(w.Len(300)))
 		}
 		s.Sigs = append(s.Sigs, sig)
